@@ -70,6 +70,14 @@ def one(ctx, i):
     ctx.count('simulations')
     if mixed:
         ctx.count('mixed_unit_histories')
+    if rng.random() < 0.3:
+        # the user prepares the next study through the public setters (duty cycle, position and speed of the output): the
+        # recorded history, and therefore every snapshot and export of it, is unaffected
+        un_ = B.g().un
+        b.motor.pwm = rng.choice([0.4, -1, 0, 0.123])
+        b.last.angular_position = un_.AngularPosition(rng.uniform(-3, 3), 'rad')
+        b.last.angular_speed = un_.AngularSpeed(rng.uniform(-3, 3), 'rad/s')
+        ctx.count('histories_followed_by_setter_calls')
     subsets = all_small_subsets()
     todo = [subsets[(i * 7 + j) % len(subsets)] for j in range(6)]
     for _ in range(4):
